@@ -383,6 +383,47 @@ def parse_cli():
     return int(lim.group(1)), int(el.group(1)), cont.group(1) == "true"
 
 
+# --------------------------------------------------------------------------------------------------- db.rs protocol
+def parse_db_protocol():
+    """The order of the persistent effects (and of the guarded crash points between them) in open_index and in the rebuild block of
+    open_inner, as they stand in src/db.rs."""
+    s = read("db.rs")
+    m = re.search(r"fn open_index\(config: &crate::config::Config\) -> Result<\(bool, Index\)> \{(.*?)\n\}\n", s, re.S)
+    need(m, "db.rs: open_index not found")
+    body = m.group(1)
+    need("if !force_rebuild {" in body and "Index::open_in_dir(&config.index_path)" in body and "return Ok((false, index));" in body,
+         "db.rs: the reopen path of open_index changed")
+    after = body[body.index("return Ok((false, index));"):]
+    pats = [(r"crate::verif::crash_point\((\d+)\)", "CP"), (r"config\.remove_meta\(\)", "RemoveMeta"), (r"fs::remove_dir_all\(", "RemoveDir"),
+            (r"fs::create_dir_all\(", "CreateDir"), (r"Index::create_in_dir\(", "CreateIndex"), (r"writer\.delete_all_documents\(\)", "DeleteAll"),
+            (r"db\.load_bytes\(&mut writer", "AddDocs"), (r"writer\.commit\(\)", "Commit"), (r"config\.write_meta\(\)", "WriteMeta")]
+
+    def scan(text):
+        found = []
+        for pat, name in pats:
+            for mm in re.finditer(pat, text):
+                found.append((mm.start(), name, mm.group(1) if name == "CP" else None))
+        found.sort()
+        return [(n, a) for _, n, a in found]
+    idx = scan(after)
+    need(re.search(r"if config\.index_path\.is_dir\(\) \{\s*log::info!\([^;]*;\s*fs::remove_dir_all", after, re.S), "db.rs: remove_dir_all is no longer guarded by is_dir()")
+    m2 = re.search(r"fn open_inner\(in_memory: bool\) -> Result<Self> \{(.*?)\n    \}\n", s, re.S)
+    need(m2, "db.rs: open_inner not found")
+    inner = m2.group(1)
+    need("let (index_rebuild, index) = open_index(&config)?;" in inner and "rebuild = rebuild || index_rebuild;" in inner, "db.rs: open_inner no longer combines the rebuild flags")
+    need(re.search(r"Some\(existing\) if !in_memory => existing != hash,\s*_ => true,", inner), "db.rs: the stored-hash test changed")
+    pre = scan(inner[inner.index("open_index(&config)?;"):inner.index("if rebuild {")])
+    blk = inner[inner.index("if rebuild {"):]
+    reb = scan(blk)
+    need(re.search(r"if !in_memory \{\s*config\.write_meta\(\)\?;", blk), "db.rs: write_meta is no longer guarded by !in_memory only")
+    s2 = read("config.rs")
+    need(re.search(r"pub fn write_meta\(&self\) -> Result<\(\)> \{\s*let f = fs::File::create\(&self\.meta_path\)\?;\s*serde_json::to_writer\(f, &self\.meta\)\?;", s2), "config.rs: write_meta changed")
+    need("config.meta.version = Some(config.this_version.to_owned());" in blk and "config.meta.database_hash = Some(hash);" in blk, "db.rs: the metadata written after a rebuild changed")
+    fv = re.search(r"let force_rebuild = match config\.meta\.version\.as_deref\(\) \{\s*Some\(version\) => version != config\.this_version,\s*_ => true,", body)
+    need(fv, "db.rs: the version gate of open_index changed")
+    return idx, pre, reb
+
+
 # --------------------------------------------------------------------------------------------------- db
 def cbor_dec(b, i=0):
     ib = b[i]
@@ -653,6 +694,21 @@ def main():
     o.append("Definition documented_names : list (list N * N * Z) := [\n  " + ";\n  ".join(docrows) + "].\n\n")
     o.append("(* src/bin/any.rs: display spec of the command line *)\nDefinition cli_limit : nat := %d%%nat.\nDefinition cli_exponent_limit : nat := %d%%nat.\nDefinition cli_show_continuation : bool := %s.\n" % (limit, el, "true" if cont else "false"))
     write_if_changed(os.path.join(GEN, "Tables.v"), "".join(o))
+
+    # ---- DbSteps.v
+    idx_steps, pre_steps, reb_steps = parse_db_protocol()
+
+    def steps(l):
+        return "[" + "; ".join("CP %s" % a if n == "CP" else "Eff %s" % n for n, a in l) + "]"
+    o = ["(* GENERATED by tools/translate.py from /repo -- do not edit. *)\nFrom Coq Require Import List.\nImport ListNotations.\nFrom AV Require Import model.DbTypes.\n\n"]
+    o.append("(* src/db.rs: persistent effects and crash points, in source order: the recreate path of open_index, what follows the call of\n   open_index in open_inner, and the rebuild block of open_inner *)\n")
+    o.append("Definition open_index_steps : list step := %s.\n" % steps(idx_steps))
+    o.append("Definition after_open_steps : list step := %s.\n" % steps(pre_steps))
+    o.append("Definition rebuild_steps : list step := %s.\n" % steps(reb_steps))
+    o.append("(* the writer constructor: number of indexing threads (0 = tantivy's default, one per core up to 8) *)\n")
+    wm = re.search(r"db\.index\.writer_with_num_threads\((\d+),", read("db.rs"))
+    o.append("Definition writer_threads : nat := %d.\n" % (int(wm.group(1)) if wm else 0))
+    write_if_changed(os.path.join(GEN, "DbSteps.v"), "".join(o))
 
     # ---- Shipped.v
     o = [header]
